@@ -81,15 +81,28 @@ def _gen_op(rng: random.Random, names: Sequence[str], mix: Sequence[str], optnam
 def make_plan(seed: int, tier: str = "quick") -> dict:
     rng = random.Random(seed)
     groups = sorted(pool.GROUPS)
-    n_threads = rng.choice([2, 2, 2, 2, 3, 3, 4])
-    # placement: 55 % one family, 25 % two families, 20 % anything
+    static = [g for g in groups if not g.startswith("gen")]
+    generated = [g for g in groups if g.startswith("gen")]
+
+    def pick_group():
+        # the hand-written families (conversions, lazy conversions, discriminators, generics, …) and
+        # the generated class graphs get half of the runs each
+        if generated and rng.random() < 0.5:
+            return rng.choice(generated)
+        return rng.choice(static)
+
+    # size: half of the runs are duels (two threads, one first use each): most first-use races need
+    # no more and small runs are cheap; the rest grow up to 4 threads x 3 operations
+    size = rng.random()
+    n_threads = 2 if size < 0.5 else rng.choice([2, 2, 3, 3, 4])
+    # placement: 60 % one family, 25 % two families, 15 % several
     r = rng.random()
-    if r < 0.55:
-        fam = [rng.choice(groups)]
-    elif r < 0.80:
-        fam = rng.sample(groups, 2)
+    if r < 0.60:
+        fam = [pick_group()]
+    elif r < 0.85:
+        fam = list({pick_group(), pick_group()})
     else:
-        fam = rng.sample(groups, min(len(groups), rng.choice([3, 5])))
+        fam = list({pick_group() for _ in range(rng.choice([3, 5]))})
     names = [n for g in fam for n in pool.GROUPS[g]]
     # swarm: operation mix and option subset
     mix = rng.sample(OP_KINDS, rng.randint(1, len(OP_KINDS)))
@@ -100,7 +113,7 @@ def make_plan(seed: int, tier: str = "quick") -> dict:
     threads = []
     first = _gen_op(rng, names, mix, optnames)
     for t in range(n_threads):
-        k = rng.choice([1, 1, 1, 2, 2, 3])
+        k = 1 if size < 0.5 else rng.choice([1, 1, 2, 2, 3])
         ops = [_gen_op(rng, names, mix, optnames) for _ in range(k)]
         if same_first:
             ops[0] = list(first)
